@@ -2,6 +2,7 @@ import KrroodVerif.Sexp
 import KrroodVerif.Model.Eql
 import KrroodVerif.Model.EqlFindings
 import KrroodVerif.Model.EqlSub
+import KrroodVerif.Model.EqlQuantFrag
 import KrroodVerif.Drive.EqlParse
 namespace KrroodVerif.Drive.C01
 open KrroodVerif KrroodVerif.Eql KrroodVerif.Drive.EqlParse
@@ -59,5 +60,7 @@ def run (s : Sexp) : String :=
   | some (w, q) =>
     let m := evalQuery w q.toQuery
     let sp := solutions w q
-    s!"model={showSet m}\tspec={showSet sp}\ttrig={",".intercalate (triggers w q)}\tseq={showSeq m}"
+    -- `triggersQ`: inside the proved quantifier fragment (`quantProved`, `Props/C01Quant.lean`) the quantifier findings
+    -- F-C01-5/7/11 are not offered as an excuse; `frag=ql` marks those cases (counted by the harness)
+    s!"model={showSet m}\tspec={showSet sp}\ttrig={",".intercalate (triggersQ w q)}\tseq={showSeq m}\tfrag={if quantProved w q then "ql" else "-"}"
 end KrroodVerif.Drive.C01
